@@ -57,6 +57,7 @@ Definition asg_eqb (a b : asg) : bool :=
 Definition ffp_eqb (a b : ffp) : bool :=
   String.eqb (p_n a) (p_n b) && Bool.eqb (p_kw a) (p_kw b) && Bool.eqb (p_d a) (p_d b) &&
   Bool.eqb (p_init a) (p_init b) && option_eqb ty_eqb (p_ty a) (p_ty b) &&
+  option_eqb Bool.eqb (p_mix a) (p_mix b) &&
   str_list_eqb (p_v a) (p_v b) && str_list_eqb (p_c a) (p_c b) &&
   str_list_eqb (p_m a) (p_m b) && Bool.eqb (p_inh a) (p_inh b).
 
@@ -76,6 +77,7 @@ Definition fp_eqb (a b : fp) : bool :=
   Bool.eqb (fp_pre a) (fp_pre b) && Bool.eqb (fp_post a) (fp_post b) &&
   Bool.eqb (fp_owninit a) (fp_owninit b) &&
   option_eqb Bool.eqb (fp_hashes a) (fp_hashes b) &&
+  option_eqb Bool.eqb (fp_mixed a) (fp_mixed b) &&
   option_eqb (list_eqb (fun x y => String.eqb (fst x) (fst y) &&
                                    option_eqb str_list_eqb (snd x) (snd y)))
              (fp_initconv a) (fp_initconv b) &&
@@ -107,6 +109,7 @@ Definition set_eqb (a b : list string) : bool :=
 Definition ffp_eqb_m (a b : ffp) : bool :=
   String.eqb (p_n a) (p_n b) && Bool.eqb (p_kw a) (p_kw b) && Bool.eqb (p_d a) (p_d b) &&
   Bool.eqb (p_init a) (p_init b) && option_eqb ty_eqb (p_ty a) (p_ty b) &&
+  option_eqb Bool.eqb (p_mix a) (p_mix b) &&
   str_list_eqb (p_v a) (p_v b) && str_list_eqb (p_c a) (p_c b) &&
   set_eqb (p_m a) (p_m b) && Bool.eqb (p_inh a) (p_inh b).
 
@@ -114,11 +117,11 @@ Definition fp_eqb_m (a b : fp) : bool :=
   list_eqb ffp_eqb_m (fp_fields a) (fp_fields b) &&
   fp_eqb {| fp_fields := []; fp_hash := fp_hash a; fp_eq := fp_eq a; fp_init := fp_init a;
             fp_sig := fp_sig a; fp_ann := fp_ann a; fp_pre := fp_pre a; fp_post := fp_post a;
-            fp_owninit := fp_owninit a; fp_hashes := fp_hashes a; fp_initconv := fp_initconv a;
+            fp_owninit := fp_owninit a; fp_hashes := fp_hashes a; fp_mixed := fp_mixed a; fp_initconv := fp_initconv a;
             fp_assign := fp_assign a |}
          {| fp_fields := []; fp_hash := fp_hash b; fp_eq := fp_eq b; fp_init := fp_init b;
             fp_sig := fp_sig b; fp_ann := fp_ann b; fp_pre := fp_pre b; fp_post := fp_post b;
-            fp_owninit := fp_owninit b; fp_hashes := fp_hashes b; fp_initconv := fp_initconv b;
+            fp_owninit := fp_owninit b; fp_hashes := fp_hashes b; fp_mixed := fp_mixed b; fp_initconv := fp_initconv b;
             fp_assign := fp_assign b |}.
 
 Definition fprint_eqb_m (a b : fprint) : bool :=
